@@ -1,4 +1,4 @@
-// Polynomial kinds (C11, C12): poly.ring, poly.calc, poly.access, poly.ctor, poly.div.
+// Polynomial kinds (C11, C12): poly.ring, poly.calc, poly.access, poly.ctor, poly.hist, poly.div, poly.divself.
 // Only the public API of ohsl::Polynomial is used (new/empty/quadratic/cubic, size, degree, index,
 // eval, is_zero, trim, derivative*, the operator impls, polydiv).  The printed streams are mirrored
 // by run_ring / run_calc / run_access / run_ctor / run_div of coq/Model/Poly.v.
@@ -35,6 +35,18 @@ fn guarded<F: FnOnce(&mut Out)>(out: &mut Out, f: F) {
             let cls = crate::classify(&msg);
             if cls == "harness" || cls == "ratovf" { panic!("{}", msg); }
             out.toks.push(format!("P{}", cls));
+        }
+    }
+}
+
+// outcome of polydiv: 0 q r | 1 (divide by zero polynomial) | 2 (exceeded maximum iterations) | 3 (any other Err: never expected)
+fn div_out<T: Elt>(r: Result<(Polynomial<T>, Polynomial<T>), &'static str>, out: &mut Out) {
+    match r {
+        Ok((q, r)) => { out.int(0); dump(&q, out); dump(&r, out); }
+        Err(msg) => {
+            if msg.contains("divide by zero") { out.int(1); }
+            else if msg.contains("maximum iterations") { out.int(2); }
+            else { out.int(3); }   // degree() of an empty polynomial
         }
     }
 }
@@ -89,6 +101,26 @@ pub fn run<T: Elt>(kind: &str, a: &mut Args, out: &mut Out) {
             guarded(out, |o| { let mut c = p.clone(); c[i] = x; dump(&c, o) });
             guarded(out, |o| { let mut c = p.clone(); c.trim(); dump(&c, o) });
         }
+        // poly.hist <p> <q> <i> <x>: HISTORIES -- a mutating operation followed by another one and then by the views and
+        // operators (every block on a fresh clone of p; a library panic inside a block is its whole answer):
+        //  H1 p[i] = x; trim            -> p, degree, is_zero        H2 trim; trim         -> p, [second trim changed nothing]
+        //  H3 trim; p[i] = x            -> p                         H4 coeffs().len(); coeffs().push(x) -> len, p, degree
+        //  H5 coeffs()[i] = x           -> p                         H6 t = trim p: t+q, t*q, q-t, t(x), t'
+        //  H7 p[i] = x: p(x), p', p*q
+        // (coeffs() -- the mutable view of the coefficient vector -- is public API that no other kind calls)
+        "poly.hist" => {
+            let p = poly::<T>(a); let q = poly::<T>(a); let i = a.usize(); let x = a.s::<T>();
+            let (sp, sq) = (toks(&p), toks(&q));
+            guarded(out, |o| { let mut c = p.clone(); c[i] = x; c.trim(); dump(&c, o); deg(&c, o); o.boolean(c.is_zero()); });
+            guarded(out, |o| { let mut c = p.clone(); c.trim(); let s1 = toks(&c); c.trim(); dump(&c, o); o.boolean(toks(&c) == s1); });
+            guarded(out, |o| { let mut c = p.clone(); c.trim(); c[i] = x; dump(&c, o); });
+            guarded(out, |o| { let mut c = p.clone(); o.usize(c.coeffs().len()); c.coeffs().push(x); dump(&c, o); deg(&c, o); });
+            guarded(out, |o| { let mut c = p.clone(); c.coeffs()[i] = x; dump(&c, o); });
+            guarded(out, |o| { let mut t = p.clone(); t.trim(); dump(&(&t + &q), o); dump(&(&t * &q), o); dump(&(&q - &t), o);
+                               o.s(&t.eval(x)); dump(&t.derivative(), o); });
+            guarded(out, |o| { let mut c = p.clone(); c[i] = x; o.s(&c.eval(x)); dump(&c.derivative(), o); dump(&(&c * &q), o); });
+            check_same(&p, &sp, "a history on a clone"); check_same(&q, &sq, "a history on a clone");
+        }
         // poly.ctor <a> <b> <c> <d>: quadratic(a,b,c), cubic(a,b,c,d), empty()
         "poly.ctor" => {
             let (ca, cb, cc, cd) = (a.s::<T>(), a.s::<T>(), a.s::<T>(), a.s::<T>());
@@ -102,14 +134,27 @@ pub fn run<T: Elt>(kind: &str, a: &mut Args, out: &mut Out) {
             let (su, sv) = (toks(&u), toks(&v));
             let r = u.polydiv(&v);
             check_same(&u, &su, "polydiv"); check_same(&v, &sv, "polydiv");
-            match r {
-                Ok((q, r)) => { out.int(0); dump(&q, out); dump(&r, out); }
-                Err(msg) => {
-                    if msg.contains("divide by zero") { out.int(1); }
-                    else if msg.contains("maximum iterations") { out.int(2); }
-                    else { out.int(3); }   // any other Err (degree() of an empty polynomial): never expected
-                }
+            div_out(r, out);
+            // dividend and divisor the SAME object: a shortcut keyed on pointer equality must agree with the general
+            // routine (in particular x.polydiv(&x) of the empty / all-zero polynomial is still the zero-divisor error)
+            for (w, nm) in [(&u, "u"), (&v, "v")] {
+                // (a non-zero polynomial with a vanishing leading coefficient is outside the claim as a divisor)
+                let n = w.size();
+                if n > 0 && w[n - 1] == T::zero() && (0..n).any(|i| w[i] != T::zero()) { continue; }
+                let (mut o1, mut o2) = (Out::new(), Out::new());
+                guarded(&mut o1, |o| div_out(w.polydiv(w), o));              // (a panic of the library is part of the outcome)
+                guarded(&mut o2, |o| div_out(w.polydiv(&w.clone()), o));
+                if o1.toks != o2.toks { panic!("harness: same-object and cloned-operand forms differ ({}.polydiv(&{}), dividend and divisor the same object)", nm, nm); }
             }
+            check_same(&u, &su, "polydiv (same object)"); check_same(&v, &sv, "polydiv (same object)");
+        }
+        // poly.divself <u>: u.polydiv(&u), dividend and divisor the SAME object; the stream of poly.div (model: run_div u u)
+        "poly.divself" => {
+            let u = poly::<T>(a);
+            let su = toks(&u);
+            let r = u.polydiv(&u);
+            check_same(&u, &su, "polydiv (same object)");
+            div_out(r, out);
         }
         _ => panic!("harness: unknown kind {}", kind),
     }
